@@ -194,6 +194,15 @@ def optLen : Option (List UInt8) → Nat
 /-- A message the encoder can represent and that is not a compression wrapper: magic 0 without
     timestamp or magic 1 with an int64 timestamp, attributes one byte with codec bits 0, key,
     value and the whole encoded message shorter than 2^31 (the size field is an int32). -/
+/-- A message the encoder can represent (any codec bits): magic 0 without timestamp or magic 1 with
+    an int64 timestamp, attributes one byte, key, value and the whole message shorter than 2^31. -/
+def encodableMsg (m : Msg) : Bool :=
+  ((m.magic == 0 && m.ts == none) ||
+    (m.magic == 1 && (match m.ts with | some t => int64 t | none => false)))
+  && decide (0 ≤ m.attrs) && decide (m.attrs < 256)
+  && decide (optLen m.key < 2147483648) && decide (optLen m.value < 2147483648)
+  && decide ((encodeMessage m).length < 2147483648)
+
 def plainMsg (m : Msg) : Bool :=
   ((m.magic == 0 && m.ts == none) ||
     (m.magic == 1 && (match m.ts with | some t => int64 t | none => false)))
@@ -203,5 +212,51 @@ def plainMsg (m : Msg) : Bool :=
   && decide ((encodeMessage m).length < 2147483648)
 
 def plainEntry (om : Int × Msg) : Bool := int64 om.1 && plainMsg om.2
+
+/-! ## Sets whose entries may be gzip wrappers (either message format) -/
+
+/-- An entry of a message set: a plain message, or a gzip wrapper message `wm` (its value is the
+    compressed payload) around the inner set `ims`. -/
+inductive SetEntry where
+  | plain (om : Int × Msg)
+  | wrapper (off : Int) (wm : Msg) (ims : List (Int × Msg))
+
+def SetEntry.off : SetEntry → Int
+  | .plain om => om.1
+  | .wrapper off _ _ => off
+
+def SetEntry.msgBytes : SetEntry → List UInt8
+  | .plain om => encodeMessage om.2
+  | .wrapper _ wm _ => encodeMessage wm
+
+/-- Offset MessageSize Message -/
+def SetEntry.bytes (e : SetEntry) : List UInt8 :=
+  toBESigned 8 e.off ++ toBESigned 4 e.msgBytes.length ++ e.msgBytes
+
+def SetEntry.len (e : SetEntry) : Nat := 12 + e.msgBytes.length
+
+/-- What iterating the entry yields: the message itself; for a format-0 wrapper the inner messages
+    with their stored offsets; for a format-1 wrapper the inner messages re-based so that the last
+    one carries the wrapper's offset. -/
+def SetEntry.yields : SetEntry → List (Int × Msg)
+  | .plain om => [om]
+  | .wrapper off wm ims =>
+    if wm.magic == 0 then ims
+    else match ims.getLast? with
+      | none => []
+      | some last => ims.map (fun om => (off - last.1 + om.1, om.2))
+
+def encodeEntries : List SetEntry → List UInt8
+  | [] => []
+  | e :: rest => e.bytes ++ encodeEntries rest
+
+/-- The entry is well formed for the decompressor `gz`: a plain entry is `plainEntry`; a wrapper is an
+    encodable message with the gzip codec bits whose value `gz` decompresses to the encoding of a
+    set of plain messages (the `gunzip ∘ gzip` hypothesis, per payload). -/
+def SetEntry.WellFormed (gz : Gz) : SetEntry → Prop
+  | .plain om => plainEntry om = true
+  | .wrapper off wm ims =>
+    int64 off = true ∧ encodableMsg wm = true ∧ (wm.attrs.toNat &&& c12CodecMask) = c12CodecGzip ∧
+    gz wm.value = .ok (encodeSet ims) ∧ ∀ om ∈ ims, plainEntry om = true
 
 end Afkak.C12
